@@ -95,6 +95,7 @@ void World::opCardinality(const Step &s)
     ForRT &F = forests[A.forest];
     const long expect = A.tab.countNonDefault(defaultOf(F.kind()));
     desc << "CARDINALITY(" << en(A) << ") expect " << expect;
+    if (tracing) { fprintf(stderr, "   doing: %s\n", desc.str().c_str()); fflush(stderr); }
     long cl = -1; double cd = -1; long cz = -1;
     try {
         apply(CARDINALITY, *A.e, cl);
@@ -240,6 +241,7 @@ void World::opIterate(const Step &s)
     const bool useMask = s.a[1] & 1;
     if (useMask) genMask(R, D, F.spec.rel, sm);
     desc << "iterate " << en(A) << " in " << fn(A.forest) << (useMask ? " masked" : "");
+    if (tracing) { fprintf(stderr, "   doing: %s\n", desc.str().c_str()); fflush(stderr); }
     std::vector<IterSlot::Item> want;
     expectedVisits(F, D, A.tab, useMask ? &sm : nullptr, want);
     minterm* mask = useMask ? maskToMinterm(F, sm) : nullptr;
@@ -461,6 +463,9 @@ void World::opRange(const Step &s)
     std::vector<size_t> ca = edgesWhere([&](const EdgeSlot &e) {
         if (e.forest < 0 || !forests[e.forest].alive || !e.oracle) return false;
         FKind k = forests[e.forest].kind();
+        // KF-C05-5: range queries ignore the implicit zeros of identity-skipped
+        // levels in identity-reduced relation forests (probe plans only)
+        if (forests[e.forest].spec.rel && forests[e.forest].spec.red == 2 && s.a[5] != 999) return false;
         return k == FK_MTI || k == FK_MTR;
     });
     if (ca.empty()) { note(OC_SKIP); return; }
@@ -468,6 +473,7 @@ void World::opRange(const Step &s)
     ForRT &F = forests[A.forest];
     const bool mx = (s.a[0] & 1);
     desc << (mx ? "MAX_RANGE(" : "MIN_RANGE(") << en(A) << ")";
+    if (tracing) { fprintf(stderr, "   doing: %s\n", desc.str().c_str()); fflush(stderr); }
     Val best = A.tab.v[0];
     for (const Val &x : A.tab.v) {
         if (mx ? (x.num() > best.num()) : (x.num() < best.num())) best = x;
@@ -528,6 +534,7 @@ void World::opCross(const Step &s)
     const Dom &D = doms[FA.spec.dom].m;
     EdgeSlot* res = newEdge(s.client, ri);
     desc << en(*res) << " = CROSS(" << en(A) << ", " << en(B) << ") in " << fn(ri);
+    if (tracing) { fprintf(stderr, "   doing: %s\n", desc.str().c_str()); fflush(stderr); }
     res->oracle = A.oracle && B.oracle;
     res->tab = Table::constant(D, true, Val::b(false));
     for (long x = 0; x < D.N; x++) for (long y = 0; y < D.N; y++)
@@ -579,9 +586,14 @@ void World::opImage(const Step &s)
     ForRT &FR = forests[ri];
     // integer MT distance needs a fully reduced result forest (documented)
     if (FA.kind() == FK_MTI && FR.spec.red != 0) { note(OC_SKIP); return; }
+    // KF-C09-1: ... and crashes when the operand forest is quasi-reduced and
+    // a distance-0 terminal meets a terminal of a fully-reduced relation above
+    // the bottom level (probe plans only)
+    if (FA.kind() == FK_MTI && FA.spec.red != 0 && s.a[5] != 999) { note(OC_SKIP); return; }
     const Dom &D = doms[FA.spec.dom].m;
     EdgeSlot* res = newEdge(s.client, ri);
     desc << en(*res) << " = " << (fwd ? "POST_IMAGE(" : "PRE_IMAGE(") << en(A) << ", " << en(Rl) << " in " << fn(Rl.forest) << ") into " << fn(ri);
+    if (tracing) { fprintf(stderr, "   doing: %s\n", desc.str().c_str()); fflush(stderr); }
     res->oracle = A.oracle && Rl.oracle;
     const FKind k = FA.kind();
     Val unreach = (k == FK_MTB) ? Val::b(false) : (k == FK_EVP ? Val::pinf(Val::I) : Val::n(-1));
@@ -676,6 +688,7 @@ void World::opVMMult(const Step &s)
     const Dom &D = doms[FA.spec.dom].m;
     EdgeSlot* res = newEdge(s.client, ri);
     desc << en(*res) << " = " << (vm ? "VM_MULTIPLY(" : "MV_MULTIPLY(") << en(A) << ", " << en(M) << ") into " << fn(ri);
+    if (tracing) { fprintf(stderr, "   doing: %s\n", desc.str().c_str()); fflush(stderr); }
     res->oracle = A.oracle && M.oracle;
     const bool real = FA.kind() == FK_MTR;
     res->tab = Table::constant(D, false, real ? Val::r(0.0) : Val::n(0));
@@ -808,6 +821,7 @@ void World::opReach(const Step &s)
     unsigned algs = 1 + s.a[0] % 7;     // bit0 FS, bit1 NOFS, bit2 SATUR
     if (ak != FK_MTB) { algs &= 6; if (!algs) algs = 2; }    // the frontier variant is offered for boolean sets only
     desc << "reach " << (fwd ? "fwd" : "bwd") << " algs=" << algs << " init " << en(A) << " rel " << en(Rl) << " in " << fn(Rl.forest) << " result " << fn(ri);
+    if (tracing) { fprintf(stderr, "   doing: %s\n", desc.str().c_str()); fflush(stderr); }
     dd_edge ac(*A.e), rc(*Rl.e);
     EdgeSlot* res = nullptr;
     for (unsigned al = 0; al < 3; al++) {
@@ -906,6 +920,7 @@ void World::opSatPart(const Step &s)
     const unsigned nev = 1 + s.a[0] % 5;
     const unsigned mode = s.a[4] % 6;
     desc << "partitioned saturation, " << nev << " events, mode " << mode << ", init " << en(A) << ", events in " << fn(rfi) << ", result " << fn(ri);
+    if (tracing) { fprintf(stderr, "   doing: %s\n", desc.str().c_str()); fflush(stderr); }
     // events: each touches a random subset of variables (others unchanged)
     Table U = Table::constant(D, true, Val::b(false));
     std::vector<dd_edge> evs;
@@ -1044,6 +1059,7 @@ void World::opReorder(const Step &s)
     for (int k = 1; k <= n; k++) l2v[size_t(k)] = k;
     for (int k = n; k > 1; k--) std::swap(l2v[size_t(k)], l2v[size_t(1 + R.below(k))]);
     desc << "reorder " << fn(fi) << " heuristic " << F.spec.reorder << (F.spec.swap ? " LEVEL" : " VAR") << " target";
+    if (tracing) { fprintf(stderr, "   doing: %s\n", desc.str().c_str()); fflush(stderr); }
     for (int k = 1; k <= n; k++) desc << " " << l2v[size_t(k)];
     // other forests over the same domain: remember their roots
     std::vector<std::pair<EdgeSlot*, dd_edge>> others;
@@ -1129,6 +1145,7 @@ void World::opIndexSet(const Step &s)
     std::sort(mem.begin(), mem.end());
     EdgeSlot* res = newEdge(s.client, ri);
     desc << en(*res) << " = CONVERT_TO_INDEX_SET(" << en(A) << ", " << mem.size() << " members) in " << fn(ri) << ", lookups -1.." << mem.size();
+    if (tracing) { fprintf(stderr, "   doing: %s\n", desc.str().c_str()); fflush(stderr); }
     res->tab = Table::constant(D, false, Val::pinf(Val::I));
     for (size_t i = 0; i < mem.size(); i++) res->tab.v[size_t(mem[i].second)] = Val::n(long(i));
     try {
@@ -1182,6 +1199,129 @@ void World::opIndexSet(const Step &s)
     }
     stats.opcount["index:lookup"] += long(mem.size()) + 2;
     note(OC_OK, res->tab.hash(), long(res->e->getNodeCount()));
+}
+
+
+// ----------------------------------------------------------------------
+// bigcard: counting and index lookups beyond 32 bits.  A dense table cannot
+// hold such sets, so this step uses its own domain and an analytic model: a
+// union of cubes made disjoint by distinct values of the top variable.
+// Cardinality = sum over cubes of the product of the free variables' sizes;
+// the lexicographic numbering is: cubes in order of their top value, within
+// a cube mixed radix over its free variables from the top level down.
+// a[0] shape, a[1] reduction (0 fully, 1 quasi), a[2]&1 also index set
+// ----------------------------------------------------------------------
+void World::opBigCard(const Step &s)
+{
+    cur_family = "count";
+    Rng R(s.seed);
+    const int nv = 11 + int(R.below(5));
+    std::vector<int> sz(size_t(nv) + 1, 0);
+    for (int k = 1; k <= nv; k++) sz[size_t(k)] = 5 + int(R.below(4));      // 5..8
+    const bool quasi = (s.a[1] & 1);
+    const bool doIndex = quasi && (s.a[2] & 1);     // conversion of skipped levels is exponential in a fully-reduced source
+    const unsigned ncubes = 1 + unsigned(R.below(unsigned(sz[size_t(nv)])));
+    desc << "big set: " << nv << " variables, " << ncubes << " disjoint cubes, " << (quasi ? "quasi" : "fully") << "-reduced"
+         << (doIndex ? ", index set lookups" : "");
+    struct Cube { std::vector<int> fix; long count; };
+    std::vector<Cube> cubes(ncubes);
+    long total = 0;
+    for (unsigned c = 0; c < ncubes; c++) {
+        cubes[c].fix.assign(size_t(nv) + 1, -1);
+        cubes[c].fix[size_t(nv)] = int(c);          // distinct top values, ascending
+        long cnt = 1;
+        for (int k = 1; k < nv; k++) {
+            if (R.chance(1, 4)) cubes[c].fix[size_t(k)] = int(R.below(unsigned(sz[size_t(k)])));
+            else cnt *= sz[size_t(k)];
+        }
+        cubes[c].count = cnt;
+        total += cnt;
+    }
+    domain* d = nullptr;
+    forest* f = nullptr;
+    forest* fx = nullptr;
+    try {
+        d = domain::createBottomUp(sz.data() + 1, unsigned(nv));
+        policies p(false);
+        if (quasi) p.setQuasiReduced(); else p.setFullyReduced();
+        f = forest::create(d, false, range_type::BOOLEAN, edge_labeling::MULTI_TERMINAL, p);
+        max_fid_seen = std::max(max_fid_seen, f->FID());
+        dd_edge set(f);
+        {
+            minterm_coll mc(ncubes, f);
+            for (unsigned c = 0; c < ncubes; c++) {
+                for (int k = 1; k <= nv; k++) mc.unused().setVar(unsigned(k), cubes[c].fix[size_t(k)] < 0 ? DONT_CARE : cubes[c].fix[size_t(k)]);
+                mc.unused().setValue(rangeval(true));
+                mc.pushUnused();
+            }
+            mc.buildFunctionMax(rangeval(false), set);
+        }
+        for (int round = 0; round < 2; round++) {       // the second round meets the compute table
+            long cl = -1; double cd = -1;
+            apply(CARDINALITY, set, cl);
+            apply(CARDINALITY, set, cd);
+            mpz_t z; mpz_init(z);
+            apply(CARDINALITY, set, z);
+            const double cz = mpz_get_d(z);
+            mpz_clear(z);
+            if (cl != total || cd != double(total) || cz != double(total)) {
+                std::ostringstream o;
+                o << "CARDINALITY (call " << round + 1 << ") of a set with " << total << " elements gives long=" << cl
+                  << " double=" << cd << " mpz=" << cz;
+                failNow("N2", cur_family, o.str());
+                break;
+            }
+        }
+        if (!failed() && doIndex) {
+            fx = forest::create(d, false, range_type::INTEGER, edge_labeling::INDEX_SET);
+            max_fid_seen = std::max(max_fid_seen, fx->FID());
+            dd_edge idx(fx);
+            apply(CONVERT_TO_INDEX_SET, set, idx);
+            minterm m(fx);
+            const long probes[] = { 0, 1, total - 1, total, total + 5, (1L << 31) - 1, (1L << 31), (1L << 31) + 7, (1L << 32), (1L << 32) + 1, total / 2, -1 };
+            for (long ix : probes) {
+                const bool want = (ix >= 0 && ix < total);
+                const bool got = idx.getElement(ix, m);
+                if (got != want) {
+                    std::ostringstream o;
+                    o << "getElement(" << ix << ") on an index set of " << total << " members " << (got ? "succeeds" : "fails");
+                    failNow("X2", "index", o.str());
+                    break;
+                }
+                if (!want) continue;
+                // decode the expected member
+                long rest = ix;
+                unsigned c = 0;
+                while (rest >= cubes[c].count) { rest -= cubes[c].count; c++; }
+                std::vector<int> x(size_t(nv) + 1, 0);
+                long radix = cubes[c].count;
+                for (int k = nv; k >= 1; k--) {
+                    if (cubes[c].fix[size_t(k)] >= 0) { x[size_t(k)] = cubes[c].fix[size_t(k)]; continue; }
+                    radix /= sz[size_t(k)];
+                    x[size_t(k)] = int(rest / radix);
+                    rest %= radix;
+                }
+                for (int k = 1; k <= nv; k++) {
+                    if (m.from(unsigned(k)) != x[size_t(k)]) {
+                        std::ostringstream o;
+                        o << "getElement(" << ix << ") on an index set of " << total << " members returns the wrong member (variable at level "
+                          << k << " is " << m.from(unsigned(k)) << ", expected " << x[size_t(k)] << ")";
+                        failNow("X2", "index", o.str());
+                        break;
+                    }
+                }
+                if (failed()) break;
+            }
+            stats.opcount["bigcard:index"]++;
+        }
+    }
+    catch (MEDDLY::error &e) {
+        failNow("O2", cur_family, std::string("counting a large set threw ") + e.getName());
+    }
+    if (d) domain::destroy(d);      // destroys its forests as well
+    stats.opcount["bigcard"]++;
+    if (total >= (1L << 31)) stats.opcount["bigcard:over_2^31"]++;
+    if (!failed()) note(OC_OK, uint64_t(total));
 }
 
 }
